@@ -241,11 +241,11 @@ func (o *FilterOptimizer) optimizeGtGteExpr(e *BinaryOpExpr) *ScanType {
 	// Is Key start vale and value can calculate in query,
 	// return RANGE scan with start
 	if field == KeyKW && key != nil {
-		if string(key) == "" {
-			// key > '' or key >= '' means full scan
-			return &ScanType{FULL, nil}
+		if _, literalOnLeft := e.Left.(*StringExpr); literalOnLeft {
+			// 'x' > key means key < 'x': the literal is the end of the range
+			return rangeScanWithEnd(key)
 		}
-		return &ScanType{RANGE, [][]byte{key, nil}}
+		return rangeScanWithStart(key)
 	}
 
 	// If not just return FULL scan
@@ -275,15 +275,31 @@ func (o *FilterOptimizer) optimizeLtLteExpr(e *BinaryOpExpr) *ScanType {
 	// Is Key start vale and value can calculate in query,
 	// return RANGE scan with end
 	if field == KeyKW && key != nil {
-		if string(key) == "" {
-			// key < '' or key <= '' means no keys should be scan
-			return &ScanType{EMPTY, nil}
+		if _, literalOnLeft := e.Left.(*StringExpr); literalOnLeft {
+			// 'x' < key means key > 'x': the literal is the start of the range
+			return rangeScanWithStart(key)
 		}
-		return &ScanType{RANGE, [][]byte{nil, key}}
+		return rangeScanWithEnd(key)
 	}
 
 	// If not just return FULL scan
 	return &ScanType{FULL, nil}
+}
+
+func rangeScanWithStart(key []byte) *ScanType {
+	if string(key) == "" {
+		// key > '' or key >= '' means full scan
+		return &ScanType{FULL, nil}
+	}
+	return &ScanType{RANGE, [][]byte{key, nil}}
+}
+
+func rangeScanWithEnd(key []byte) *ScanType {
+	if string(key) == "" {
+		// key < '' or key <= '' means no keys should be scan
+		return &ScanType{EMPTY, nil}
+	}
+	return &ScanType{RANGE, [][]byte{nil, key}}
 }
 
 func (o *FilterOptimizer) optimizePrefixMatchExpr(e *BinaryOpExpr) *ScanType {
